@@ -98,6 +98,14 @@ class ModuleSource:
                 self.funcs[name] = obj
 
 
+def _split_lines(source: str):
+    """Split at newlines only. str.splitlines also splits at form feeds etc."""
+    lines = source.split("\n")
+    if lines and lines[-1] == "":
+        lines.pop()
+    return lines
+
+
 def is_funcdef(src: str):
     """True if src is a function definition
 
@@ -131,7 +139,7 @@ def is_lambda(src: str):
 
 def remove_decorator(source: str):
     """Remove decorators from function definition"""
-    lines = source.splitlines()
+    lines = _split_lines(source)
     atok = asttokens.ASTTokens(source, parse=True)
 
     for node in ast.walk(atok.tree):
@@ -152,7 +160,7 @@ def remove_decorator(source: str):
 def replace_funcname(source: str, name: str):
     """Replace function name"""
 
-    lines = source.splitlines()
+    lines = _split_lines(source)
     atok = asttokens.ASTTokens(source, parse=True)
 
     for node in ast.walk(atok.tree):
@@ -198,10 +206,10 @@ def replace_docstring(source: str, docstr: str, insert_indents=False):
     if prev_token.type == token.INDENT:     # compound statements
 
         # Insert indents
-        lines = docstr.splitlines()
+        lines = docstr.split("\n")
         for i, l in enumerate(tuple(lines)):
             if i == 0 or insert_indents:
-                lines[i] = indent(l, prev_token.string)
+                lines[i] = prev_token.string + l if l.strip() else l
 
         docstr = "\n".join(lines)
 
